@@ -364,12 +364,12 @@ def eval_chunk(chunk):
 def enumerate_cases(tier, seed=0):
     thorough = tier == 'thorough'
     L = 7 if thorough else 5
-    cap = 6000 if thorough else 1500
+    cap = 6000 if thorough else 700
     pairs, info = explore(L, cap, seed)
     cases = [dict(k='step', S=to_json(S), ins=to_json(ins), depth=d) for S, ins, d in pairs]
     # end-to-end walks on a persistent stack
     rng = random.Random(int(hashlib.sha256(f'c20-{seed}'.encode()).hexdigest()[:8], 16))
-    nwalks = 4000 if thorough else 800
+    nwalks = 4000 if thorough else 500
     walks = []
     for w in range(nwalks):
         S0 = INITIAL[w % len(INITIAL)]
